@@ -414,6 +414,11 @@ carquet_status_t carquet_read_data_page_v1(
                 int bit_width = ptr[0];
                 ptr++;
                 remaining--;
+                if (bit_width > 32) {
+                    /* indices are 32-bit: wider runs shift past the accumulator */
+                    CARQUET_SET_ERROR(error, CARQUET_ERROR_DECODE, "Invalid dictionary index width");
+                    return CARQUET_ERROR_DECODE;
+                }
 
                 /* Use reusable indices buffer to avoid per-page allocation */
                 uint32_t* indices;
